@@ -35,7 +35,8 @@ META = dict(
               'structure of get_component_list, canonical-form check of the '
               'polarisation normalisation'
               "; truth table of prep_schema's channel pairing; pairing rule of labell"
-              'ed-array parameters in the parameter map',
+              'ed-array parameters in the parameter map'
+              '; iteration order of the key-matching loop of dict_to_array decided by evaluating its sort key on constants; scalar hand-on of a selected channel; filter of scalar coordinates',
     level_text='Static: decides S1-S3, i.e. that the Python layer sums all members, '
                'selects every per-channel quantity by label and normalises the '
                'reference -- necessary conditions of the three clauses that hold '
